@@ -166,6 +166,7 @@ func fillContainers(containers map[*container.Container][]string) error {
 // visit identifies a configuration of the matcher: what happens from it does not depend on how it was reached
 type visit struct {
 	state         *State
+	count         int
 	remaining     string
 	rejectOptions bool
 }
@@ -178,7 +179,7 @@ func (s *State) apply(args []string, pc matcher.ParseContext, path map[visit]boo
 
 	// some transitions match without consuming anything (an option set from the environment, a -- in the spec):
 	// coming back to a configuration which is already on the current path can only loop, never reach a new outcome
-	here := visit{s, strings.Join(args, "\x00"), pc.RejectOptions}
+	here := visit{s, len(args), strings.Join(args, "\x00"), pc.RejectOptions}
 	if path[here] {
 		return false
 	}
